@@ -162,7 +162,7 @@ def split_tables(ctx, prog):
             Row([("is", STATE, 1), ("is", ES, 1), eq(("len", THIS), Int(0))], expect_some(ch, rem, fin), name="Empty(Continue), exhausted"),
         ]
         _decide(ctx, prog, "Split::" + m, b, paths, rows, {STATE: [0, 1, 2], ES: [0, 1], f: [0, 1]},
-                constraints=[table.found_fits(f, ("len", THIS), LD)])
+                constraints=[table.found_fits(f, ("len", THIS), LD), table.le(LD, LD), table.le(("len", THIS), ("len", THIS))])
     # RSplit == Split reversed
     for m, twin in (("next", "next_back"), ("next_back", "next")):
         a, c = prog.get(SP + "RSplit::" + m), prog.get(SP + "Split::" + twin)
@@ -228,7 +228,7 @@ def terminator_tables(ctx, prog):
             except KeyError:
                 return True
         _decide(ctx, prog, ty + "::next", b, paths, rows, {STATE: [0, 1], ES: [0, 1], f: [0, 1]},
-                constraints=[table.found_fits(f, LT, LD), normal_nonempty])
+                constraints=[table.found_fits(f, LT, LD), normal_nonempty, table.le(LD, LD), table.le(LT, LT)])   # (the two lengths are points of every case)
 
 
 def _local_helpers(prog, mod, keep=()):
